@@ -17,8 +17,8 @@ Import ListNotations.
 Open Scope N_scope.
 
 (* ---------- adapters: kinds, sets, normalisation ---------- *)
-Definition kind_of_dkind (k : dkind) : kind :=
-  match k with DFull => KFull | DSuffix => KSuffix | DKeyword => KKeyword | DRegex => KRegex end.
+Definition kind_of_dkind (k : dkind) : C11_Spec.kind :=
+  match k with DFull => C11_Spec.KFull | DSuffix => C11_Spec.KSuffix | DKeyword => C11_Spec.KKeyword | DRegex => C11_Spec.KRegex end.
 
 Lemma domain_holds_s : forall k s d hits,
   C07_Spec.domain_holds k s d hits = s_domain_holds (kind_of_dkind k) s d hits.
@@ -27,51 +27,24 @@ Proof. intros [] s d hits; reflexivity. Qed.
 Definition pset_of (ds : domset) : pset := (ds_index ds, kind_of_dkind (ds_key ds), map bytes (ds_domains ds)).
 Definition c07_sets (b : builder) : list pset := map pset_of (b_domsets b).
 
-Lemma bytes_lower_ascii : forall c, N_of_ascii (lower_ascii c) = lower_byte (N_of_ascii c).
+Lemma norm_name_s : forall s, norm_name s = s_norm s.
 Proof.
-  intros c. unfold lower_ascii, lower_byte, is_upper, in_range. cbv zeta.
-  destruct ((65 <=? N_of_ascii c) && (N_of_ascii c <=? 90)) eqn:E; [|reflexivity].
-  apply N_ascii_embedding. lia.
-Qed.
-
-Lemma bytes_lower_str : forall s, bytes (lower_str s) = map lower_byte (bytes s).
-Proof. induction s as [|c s IH]; cbn; [reflexivity|]. now rewrite bytes_lower_ascii, IH. Qed.
-
-Lemma strip_dot_cons : forall x l, l <> [] -> C11_Spec.strip_dot (x :: l) = x :: C11_Spec.strip_dot l.
-Proof.
-  intros x l Hne. unfold C11_Spec.strip_dot. cbn [rev].
-  destruct (rev l) as [|c r] eqn:E.
-  - exfalso. apply Hne. rewrite <- (rev_involutive l), E. reflexivity.
-  - cbn [app]. destruct (c =? ch_dot); [|reflexivity]. rewrite rev_app_distr. reflexivity.
-Qed.
-
-Lemma bytes_strip_dot : forall s, bytes (C07_Spec.strip_dot s) = C11_Spec.strip_dot (bytes s).
-Proof.
-  induction s as [|c s IH]; [reflexivity|]. destruct s as [|c' s'].
-  - cbn [C07_Spec.strip_dot bytes]. unfold C11_Spec.strip_dot. cbn [rev app].
-    rewrite ascii_eqb_bytes. change (N_of_ascii ".") with ch_dot.
-    destruct (N_of_ascii c =? ch_dot); reflexivity.
-  - change (C07_Spec.strip_dot (String c (String c' s'))) with (String c (C07_Spec.strip_dot (String c' s'))).
-    cbn [bytes] in *. rewrite IH. symmetry. apply strip_dot_cons. discriminate.
+  intros s. unfold norm_name, s_norm.
+  assert (L : forall t, lower_str t = s_lower t) by (induction t as [|c t IH]; cbn; [reflexivity | now rewrite IH]).
+  assert (S : forall t, C07_Spec.strip_dot t = s_strip_dot t).
+  { induction t as [|c t IH]; [reflexivity|]. destruct t as [|c' t']; [reflexivity|].
+    change (C07_Spec.strip_dot (String c (String c' t'))) with (String c (C07_Spec.strip_dot (String c' t'))).
+    change (s_strip_dot (String c (String c' t'))) with (String c (s_strip_dot (String c' t'))). now rewrite IH. }
+  now rewrite S, L.
 Qed.
 
 (* C07's normalisation of a question name IS C11's *)
 Lemma bytes_norm_name : forall s, bytes (norm_name s) = normalize (bytes s).
-Proof. intros s. unfold norm_name, normalize. now rewrite bytes_lower_str, bytes_strip_dot. Qed.
-
-Lemma strip_dot_empty : forall s, C07_Spec.strip_dot s = ""%string -> s = ""%string \/ s = "."%string.
-Proof.
-  intros [|c [|c' s']]; [now left | |].
-  - cbn. destruct (Ascii.eqb_spec c "."%char) as [->|]; [now right | discriminate].
-  - change (C07_Spec.strip_dot (String c (String c' s'))) with (String c (C07_Spec.strip_dot (String c' s'))). discriminate.
-Qed.
+Proof. intros s. rewrite norm_name_s. apply bytes_s_norm. Qed.
 
 (* the only names that normalise to the empty name: "" and the root "." *)
 Lemma norm_name_empty : forall s, norm_name s = ""%string -> s = ""%string \/ s = "."%string.
-Proof.
-  intros s H. unfold norm_name in H. apply strip_dot_empty.
-  destruct (C07_Spec.strip_dot s); [reflexivity | discriminate].
-Qed.
+Proof. intros s. rewrite norm_name_s. apply s_norm_empty. Qed.
 
 (* ---------- the builders register each domain set under a fresh index ---------- *)
 Definition dinv (b : builder) : Prop :=
